@@ -75,7 +75,7 @@ def run_guarded(mod, case):
     try:
         return mod.run_case(case)
     except Violation as v:
-        return bad(v.clause, v.detail)
+        return bad(mod.PID + v.clause[1:] if v.clause.startswith("*.") else v.clause, v.detail)
     except Exception as exc:  # noqa: BLE001
         tb = sys.exc_info()[2]
         if _lib_frame(tb):
